@@ -35,6 +35,12 @@ def expand_source_blocks(
     current_level: set[int] = set([root])
     next_level: set[int] = set()
 
+    # Nodes expanded by this call. A node that is already expanded when we reach it
+    # for the first time was expanded by an earlier call (an interrupted block
+    # expansion or any other method): we cannot know which of its successors were
+    # followed back then, hence we continue through all of them.
+    visited: set[int] = set()
+
     bfs_depth = 0
 
     while len(current_level) > 0:
@@ -50,12 +56,17 @@ def expand_source_blocks(
         for node in sorted(current_level):  # Sorted for determinism
             if sd.node_data(node)["expanded"]:
                 # We re-discovered a previously expanded node.
+                if node not in visited:
+                    visited.add(node)
+                    next_level = next_level | set(sd.node_successors(node))
                 continue
 
             # Only continue if the succession diagram isn't too large.
             if (size_limit is not None) and (len(sd) >= size_limit):
                 # Size limit reached.
                 return False
+
+            visited.add(node)
 
             node_bn = sd.node_percolated_network(node, compute=True)
             node_space = sd.node_data(node)["space"]
